@@ -40,6 +40,12 @@ type Scenario struct {
 	// DID documents are at epoch 0 (late keys not yet published), then the documents move to epoch 1 and this
 	// scenario runs through the SAME instances
 	History bool `json:"history,omitempty"`
+	// RKT: key types of the recipients when they differ from KT (mixed lists); same length as Rcpts
+	RKT []string `json:"rkt,omitempty"`
+	// Rotate: the FIRST recipient is a fresh key of a fresh party whose KMS rotates that key: "before" = the envelope is
+	// packed to the key, then the key is rotated, then the party unpacks; "after" = rotated first, the envelope is
+	// packed to the new key
+	Rotate string `json:"rotate,omitempty"`
 }
 
 const (
@@ -84,6 +90,19 @@ func newPool() *pool {
 }
 
 func (p *pool) partyKeys(pa int) []int {
+	var ks []int
+
+	for _, k := range p.w.Keys {
+		if k.Owner == pa && !k.Gone {
+			ks = append(ks, k.Name)
+		}
+	}
+
+	return ks
+}
+
+// heldKeys: keys whose private part the party holds, findable or not (rotated)
+func (p *pool) heldKeys(pa int) []int {
 	var ks []int
 
 	for _, k := range p.w.Keys {
@@ -154,8 +173,37 @@ func (p *pool) run(kind string, sc Scenario, tr *hx.Trace) {
 	sparty := p.w.Parties[sender.Owner]
 
 	var rcpts []*env.Key
-	for _, r := range sc.Rcpts {
+	for i, r := range sc.Rcpts {
+		if len(sc.RKT) == len(sc.Rcpts) && !legacy {
+			rcpts = append(rcpts, p.keys[sc.RKT[i]][r[0]][r[1]])
+			continue
+		}
+
 		rcpts = append(rcpts, tab[r[0]][r[1]])
+	}
+
+	unpackers := append([]int{}, sc.Unpackers...)
+
+	var rotated *env.Key // the key to rotate between pack and unpack
+
+	if sc.Rotate != "" {
+		fresh := p.w.AddParty()
+		k := p.w.NewKey(fresh.ID, kt)
+		unpackers = append(unpackers, fresh.ID)
+
+		if sc.Rotate == "after" {
+			nk, err := p.w.Rotate(k)
+			if err != nil {
+				fmt.Fprintln(os.Stderr, "c01: rotate failed:", err)
+				os.Exit(2)
+			}
+
+			k = nk
+		} else {
+			rotated = k
+		}
+
+		rcpts[0] = k
 	}
 
 	pay, pid := payload(sc.Payload, sc.PaySeed)
@@ -270,8 +318,15 @@ func (p *pool) run(kind string, sc Scenario, tr *hx.Trace) {
 
 	var coqUnp []string
 
+	if perr == nil && rotated != nil {
+		if _, err := p.w.Rotate(rotated); err != nil {
+			fmt.Fprintln(os.Stderr, "c01: rotate failed:", err)
+			os.Exit(2)
+		}
+	}
+
 	if perr == nil {
-		for _, pa := range sc.Unpackers {
+		for _, pa := range unpackers {
 			party := p.w.Parties[pa]
 
 			u := env.Fence(func() env.Unpacked {
@@ -312,9 +367,19 @@ func (p *pool) run(kind string, sc Scenario, tr *hx.Trace) {
 				}
 			}
 
+			held := 0
+			for _, k := range p.heldKeys(pa) {
+				if rnames[k] {
+					held++
+				}
+			}
+
 			switch {
 			case u.Out == "panic":
 				fail("unpack-panic:"+sc.Packer, fmt.Sprintf("party %d: unpack panicked: %s", pa, u.Err))
+			case owns == 0 && held > 0 && u.Out != "ok":
+				// the private part is in the party's KMS (inside the rotated keyset) but not found under the recipient key's id
+				fail("recipient-cannot-unpack-after-rotation", fmt.Sprintf("party %d rotated the recipient key after the envelope was packed and can no longer unpack it: %s", pa, u.Err))
 			case owns > 0 && u.Out != "ok":
 				fail("recipient-cannot-unpack:"+sc.Packer+":"+sc.Style, fmt.Sprintf("party %d holds a recipient key but unpack failed: %s", pa, u.Err))
 			case owns > 0 && !o.PayloadEq:
@@ -362,6 +427,9 @@ func (p *pool) run(kind string, sc Scenario, tr *hx.Trace) {
 			fail("pack-rejects-A256CBC-HS384-nistp-authcrypt", msg)
 		case sc.Style == "raw" && strings.Contains(msg, "resolveKeyAgreementFromDIDDoc"):
 			fail("pack-rejects-raw-key-containing-hash", msg)
+		case len(sc.RKT) > 0 && auth && (strings.Contains(msg, "not an EC key") || strings.Contains(msg, "not an OKP key") ||
+			strings.Contains(msg, "not on the same curve")):
+			// ECDH-1PU needs sender and recipients on one curve: documented restriction, modelled (pack_mixed)
 		case strings.Contains(msg, "unsupported content encrytpion algorithm"):
 			// authcrypt admits CBC-HMAC and XC20P only: documented restriction of the packer, not a failure
 		default:
@@ -393,14 +461,25 @@ func (p *pool) run(kind string, sc Scenario, tr *hx.Trace) {
 		rn = append(rn, r.Name)
 	}
 
+	kts := "[]"
+
+	if len(sc.RKT) == len(sc.Rcpts) && !legacy {
+		items := []string{fmt.Sprintf("(%d, %s)", sender.Name, sender.KT)}
+		for _, r := range rcpts {
+			items = append(items, fmt.Sprintf("(%d, %s)", r.Name, r.KT))
+		}
+
+		kts = hx.CoqList(items)
+	}
+
 	refs := "None"
 	if sc.Via == "packager" && !legacy && (sc.Style == "diddoc" || sc.Style == "pdoc") {
 		refs = p.coqRefs(sc.Style, auth, sender, rcpts)
 	}
 
-	rec.Coq = fmt.Sprintf("{| c_cfg := mkcfg %s %s %s %s; c_viapk := %s; c_spar := %s; c_payload := %d; c_sender := %d; c_rcpts := %s; c_refs := %s; c_form := %d; c_history := %s; c_packed := %s; c_unp := %s |}",
+	rec.Coq = fmt.Sprintf("{| c_cfg := mkcfg %s %s %s %s; c_viapk := %s; c_spar := %s; c_payload := %d; c_sender := %d; c_rcpts := %s; c_refs := %s; c_form := %d; c_history := %s; c_kts := %s; c_packed := %s; c_unp := %s |}",
 		coqPacker(sc.Packer), kt, sc.Enc, coqStyle(mstyle), hx.CoqBool(sc.Via == "packager"), hx.CoqNList(p.partyKeys(sender.Owner)), pid, senderN,
-		hx.CoqNList(rn), refs, map[string]int{"": 0, "quoted": 1, "quoted-pad": 2}[sc.Form], hx.CoqBool(sc.History),
+		hx.CoqNList(rn), refs, map[string]int{"": 0, "quoted": 1, "quoted-pad": 2}[sc.Form], hx.CoqBool(sc.History), kts,
 		hx.CoqBool(perr == nil), hx.CoqList(coqUnp))
 	rec.Observed = obs
 
@@ -776,6 +855,53 @@ func main() {
 							p.run("history", sc, tr)
 						}
 					}
+				}
+			}
+		}
+	}
+
+	// recipient lists of mixed key types
+	mixes := [][]string{{env.X25519, env.P256}, {env.P256, env.X25519}, {env.P256, env.P384}, {env.P384, env.P256, env.X25519},
+		{env.X25519, env.X25519, env.P384}, {env.P256, env.P256}}
+	for _, packer := range []string{"jwe-auth", "jwe-anon"} {
+		for _, skt := range []string{env.X25519, env.P256} {
+			for _, mix := range mixes {
+				for _, via := range []string{"packager", "packer"} {
+					sc := p.scenario(next(), packer, skt, "XC20P", "didkey", via, "json", len(mix))
+					sc.Sender = [2]int{0, 0}
+					sc.Rcpts = nil
+
+					for i := range mix {
+						sc.Rcpts = append(sc.Rcpts, [2]int{1 + i, 0})
+					}
+
+					sc.RKT = mix
+					p.run("mixed", sc, tr)
+				}
+			}
+		}
+	}
+
+	// key rotation in the recipient's KMS between pack and unpack, and before pack
+	for _, packer := range []string{"jwe-auth", "jwe-anon", "leg-auth", "leg-anon"} {
+		for _, kt := range []string{env.X25519, env.P256} {
+			if strings.HasPrefix(packer, "leg") && kt != env.X25519 {
+				continue
+			}
+
+			for _, mode := range []string{"before", "after"} {
+				for n := 1; n <= 2; n++ {
+					style, via := "didkey", []string{"packager", "packer"}[n%2]
+					sc := p.scenario(next(), packer, kt, "XC20P", style, via, "json", n)
+					sc.Sender = [2]int{0, 0}
+					sc.Rcpts = nil
+
+					for i := 0; i < n; i++ {
+						sc.Rcpts = append(sc.Rcpts, [2]int{1 + i, 0})
+					}
+
+					sc.Rotate = mode
+					p.run("rotation", sc, tr)
 				}
 			}
 		}
